@@ -224,6 +224,10 @@ def t_evict(ctx):
             ctx.obs('after_dispatch', bus=bus)
             n += 1
         nb.append(n)
+        if ctx.cfg.get('await_oldest') and n:
+            # the oldest child of the burst may have been evicted from the history while still queued: it must still be processed
+            c0 = ctx.events['C0']
+            await h.wait(c0)
         await h.sleep(d)
         return 'p'
 
@@ -261,6 +265,11 @@ def t_evict(ctx):
         for name in ctx.expected('A', lab):
             ctx.check('C13.still_once', tr.count('A', lab, name) == 1, ev=lab, handler=name, n=tr.count('A', lab, name))
     ctx.check('C13.still_awaitable', bool(st.get('awaited')), why='await parent still blocked at the horizon')
+    for ae in tr.AE:
+        if ae.by in tr.Eh and ae.outcome == 'return':
+            sn = ae.snap
+            ctx.check('C13.evicted_still_processed', sn['status'] == 'completed' and sn['signal'] is True and tr.count('A', ae.ev, 'hC') == 1,
+                      ev=ae.ev, got=(sn['status'], sn['signal']), why='an (evicted) child awaited inside the handler came back unprocessed')
 
 
 TEMPLATES = {'k.cleanup_real': t_cleanup_real, 'k.cleanup': t_cleanup, 'k.dispatch_step': t_dispatch_step, 's1.evict': t_evict}
@@ -282,4 +291,6 @@ def jobs(tier):
                            witnesses=('burst larger than N',)))
     for N in (3, 4):
         out.append(Job('C13', 's1.evict', t_evict, dict(N=N, child_handler=True, awaited=N - 1, bmax=3 if tier == 'quick' else 6)))
+    for N in (2, 3):
+        out.append(Job('C13', 's1.evict', t_evict, dict(N=N, child_handler=True, await_oldest=True, bmax=4 if tier == 'quick' else 7)))
     return out
